@@ -26,6 +26,8 @@ type It interface {
 	MoveNext() bool
 	Current() int
 }
+var _ = fmt.Sprint
+
 type In struct {
 	Tup    []int    ` + "`json:\"tup\"`" + `
 	Sched  []int    ` + "`json:\"sched\"`" + `
@@ -49,7 +51,7 @@ func step(it It, r *rt.Rec) (ev Ev) {
 	n := len(r.Log)
 	defer func() {
 		if p := recover(); p != nil {
-			ev.Panic = fmt.Sprint(p)
+			ev.Panic = rt.PanicStr(p)
 		}
 		ev.Effs = append([][]any{}, r.Log[n:]...)
 		ev.Cur = it.Current()
